@@ -107,8 +107,11 @@ def world_model(w, md):
 
 def step_case(prog, case, budget):
     """explore all paths of one case; judge each; return picklable summary"""
-    st = Stats(); findings = []; samples = []; nontriv = [0]
+    st = Stats(); findings = []; samples = []; nontriv = [0]; witnesses = []
     judges = [JUDGES[j] for j in case['judges']]
+    import random
+    wrng = random.Random(hash((budget.get('seed', 0), case.get('name', str(case.get('line'))))) & 0xffffffff)
+    simple = isinstance(case.get('line'), str) and not any(k in case for k in ('item', 'call', 'prelude', 'pre_items', 'then', 'setup', 'conn_setup'))
     def run(M):
         ctx = run_step(M, prog, case)
         return ctx
@@ -144,6 +147,13 @@ def step_case(prog, case, budget):
                                                   written=[buf_text(b) for b in ctx.written][:12],
                                                   queues={n: [buf_text(b) for b in q][:8] for n, q in ctx.queues.items() if q},
                                                   outcome=ctx.outcome + ((': ' + str(ctx.panic)) if ctx.panic else ''))))
+        if simple and okk_all and ctx.outcome == 'ok' and (len(witnesses) < 2 or wrng.random() < 0.02):
+            # a passing path kept for the differential validation of the encoder (native run must give the predicted transcript)
+            mdw = model_of(M)
+            if mdw is not None:
+                wt = dict(line=ctx.line, actor=ctx.actor, world=world_model(ctx.w, mdw), profile=prog.profile, case=case.get('name', ''))
+                if len(witnesses) < 2: witnesses.append(wt)
+                else: witnesses[wrng.randrange(2)] = wt
         if len(samples) < 1 and ctx.outcome == 'ok':
             md = model_of(M)
             if md is not None:
@@ -153,7 +163,7 @@ def step_case(prog, case, budget):
                                     world_true=sorted(k for k, v in wm.items() if v is True)[:40], obligations_checked=len(obs), decisions=M.pos))
     explore(prog, run, on, stats=st, timeout_ms=budget.get('solver_ms', 10000), max_steps=budget.get('steps', 3_000_000),
             max_paths=budget.get('paths', 100000), deadline=(time.time() + budget['case_s']) if budget.get('case_s') else None)
-    return dict(stats=st, findings=findings, samples=samples, nontrivial=nontriv[0], case=case.get('name', str(case.get('line'))))
+    return dict(stats=st, findings=findings, samples=samples, nontrivial=nontriv[0], case=case.get('name', str(case.get('line'))), witnesses=witnesses)
 
 # ---------------------------------------------------------------------------------------------- generic judges
 @judge('no_panic')
